@@ -218,6 +218,9 @@ end Driver.C08
 
 def main (args : List String) : IO UInt32 := do
   match args with
+  | ["distance-fp"] =>
+    Driver.loop (← IO.getStdin) (← IO.getStdout) Driver.C08.distance
+    return 0
   | ["distance"] =>
     Driver.loop (← IO.getStdin) (← IO.getStdout) Driver.C08.distance
     return 0
